@@ -206,6 +206,17 @@ def one_run(hist, pool_names, off, inter, uni_kind='easy'):
                 info['competitor_stored'] = True
                 if node.cm.coinstate.current_chain_hash == comp.bid:
                     cur['head'] = comp
+            # ... and after that head change somebody submits another spend of an output a pending transaction spends (it is
+            # refused by a pool that knows what its transactions spend; admitted, it would make the next candidate invalid)
+            try:
+                o0_ = owned(H.utxo, K[0])
+                for nm_ in pool_names:
+                    r_ = {'fee1000': 0, 'fee1e8': 0, 'fee0': 1}.get(nm_)
+                    if r_ is not None and len(o0_) > r_:
+                        v_ = H.utxo[o0_[r_]][0]
+                        node.cm.add_transaction_to_pool(world.mk_tx([(oref(o0_[r_]), K[0])], [(v_ - 777, K[2])]))
+            except Exception:
+                pass
         elif ikind == 'bulk-block-includes-pool':
             # a block arrives as the answer to a request (bulk-download path: applied without full validation) that extends
             # the head and contains the pending transactions; the miner's next request must be served from the new head
